@@ -94,6 +94,14 @@ func (h *harness) judge(o *outcome) []failure {
 		fail("renter-success-without-host-commit", "the renter function returned success but the host never broadcast a set (host calls %v)", o.Log.calls)
 	}
 
+	if o.Held != nil {
+		// the parked exchange was abandoned afterwards: its reservation is gone too
+		gone, _ := diffSets(confirmedOnly(o.HeldBefore), confirmedOnly(o.HeldAfter))
+		if len(gone) > 0 && !committed {
+			fail("host-reservation-leak", "a formation abandoned after the host sent its inputs left %d host output(s) locked", len(gone))
+			releaseIDs(w.H, gone)
+		}
+	}
 	if !committed {
 		// failed or abandoned: no contract, every reservation released
 		if len(o.Log.recorded) != 0 {
@@ -109,7 +117,7 @@ func (h *harness) judge(o *outcome) []failure {
 			}
 		}
 		if len(extra) > 0 {
-			fail("host-over-release", "the failed attempt unlocked %d host output(s) that were locked before it", len(extra))
+			fail("host-over-release", "the failed attempt unlocked %d host output(s) that were reserved (for another exchange) before it (host calls %v)", len(extra), o.Log.calls)
 		}
 		if len(gone) == 0 && len(extra) == 0 && o.HostBal0 != o.HostBal1 {
 			fail("host-balance-changed-on-failure", "host balance before %v after %v", o.HostBal0, o.HostBal1)
